@@ -95,8 +95,9 @@ void harness(void)
   reproc_t *pa = poll_process();
   reproc_t *pb = poll_process();
   reproc_t *pc = poll_process();
-  size_t num_sources = nondet_ulong();
-  __CPROVER_assume(num_sources >= 1 && num_sources <= VERIF_NSRC);
+  /* the number of sources is fixed per harness instance (VERIF_NSRC = 1, 2, 3):
+     a symbolic count makes every array in reproc_poll symbolically sized */
+  size_t num_sources = VERIF_NSRC;
   for (int k = 0; k < VERIF_NSRC; k++) {
     int which = nondet_int();
     src[k].process = which == 0 ? NULL : which == 1 ? pa : which == 2 ? pb : pc;
